@@ -27,7 +27,7 @@ import traceback
 HERE = os.path.dirname(os.path.abspath(__file__))
 sys.path.insert(0, HERE)
 
-from common import LEAN_DIR, MODEL_EXE, NPROC, VERIF, build_lock, ddmin, run_model  # noqa: E402
+from common import EXE_ROOT, LEAN_DIR, NPROC, STREAM_EXE, VERIF, build_lock, ddmin, import_closure, run_model  # noqa: E402
 
 REGISTRY = json.load(open(os.path.join(VERIF, "registry.json")))
 ALLOWED_AXIOMS = {"propext", "Classical.choice", "Quot.sound"}
@@ -186,21 +186,32 @@ def main():
     notes = []
     broken = []          # descriptions of broken proof obligations / correspondences
 
-    # 1. T1 extraction
+    # 1. T1 extraction.  An anchor that is no longer found counts against this property only if the generated file it
+    # belongs to is imported (transitively) by the property's theorems or by the model drivers of its streams.
     import extract
     rep = extract.run(write=True)
-    if rep["missing"]:
-        broken.append({"kind": "extraction", "missing": rep["missing"]})
+    exes = sorted({STREAM_EXE[sn] for sn in cfg["streams"] if sn in STREAM_EXE})
+    closure = import_closure([cfg["module"]] + [EXE_ROOT[e] for e in exes])
+    relevant = [m for m in rep["missing"] if "file" not in m or ("Paho.Gen." + m["file"]) in closure]
+    if relevant:
+        broken.append({"kind": "extraction", "missing": relevant})
+    elif rep["missing"]:
+        notes.append("anchors not found, outside this property's import closure: " + ", ".join(m["name"] for m in rep["missing"]))
 
-    # 2. build
-    targets = [cfg["module"], "pahomodel"]
-    ok_build, build_out = lake_build(targets)
-    model_ok = ok_build
+    # 2. build: the property's theorems and the model executables of its streams
+    ok_build, build_out = lake_build([cfg["module"]] + exes)
+    exe_ok = {e: ok_build for e in exes}
     if not ok_build:
-        ok_exe, _ = lake_build(["pahomodel"])
-        model_ok = ok_exe
+        ok_mod, mod_out = lake_build([cfg["module"]])
+        for e in exes:
+            exe_ok[e], _ = lake_build([e])
+            binp = os.path.join(LEAN_DIR, ".lake", "build", "bin", e)
+            if not exe_ok[e] and os.path.exists(binp):
+                os.remove(binp)          # never run a stale model
         errs = [l for l in build_out.split("\n") if "error" in l][:12]
-        broken.append({"kind": "build", "module": cfg["module"], "errors": errs})
+        broken.append({"kind": "build", "module": cfg["module"], "errors": errs,
+                       "executables_not_built": [e for e in exes if not exe_ok[e]]})
+        ok_build = ok_mod
 
     # 3. audit + scan
     theorems = cfg["theorems"]
@@ -242,7 +253,7 @@ def main():
         evals += len(results)
         cases = [r[0] for r in results]
         model_obs = None
-        if model_ok and getattr(s, "has_model", True):
+        if exe_ok.get(STREAM_EXE.get(sname)) and getattr(s, "has_model", True):
             try:
                 model_obs = run_model(sname, cases)
             except Exception as e:  # noqa: BLE001
@@ -370,7 +381,7 @@ def main():
             "rule": cfg.get("rule", "seeded op sequences run on the real code and on the Lean model; a case is non-trivial when its stream's nontrivial() predicate holds; distinct = distinct (ops, observations) pairs"),
             "samples": samples or [{"note": "no non-trivial sample"}],
             "distribution": dict(sorted(feat_count.items())),
-            "disagreements_checked": evals if model_ok else 0,
+            "disagreements_checked": evals if all(exe_ok.values()) else 0,
             "model_vs_real_disagreements": len(disagreements),
             "extraction": {"anchors": len(rep["anchors"]), "missing": rep["missing"], "sources": rep["sources"]},
             "known_findings_hit": sorted(known_hit),
